@@ -434,6 +434,12 @@ def edit_field(obj, rng, depth=0):
                 except Exception:  # refused by the vector's bounds  # pylint: disable=broad-except
                     pass
         other = _other_value(value)
+        if isinstance(value, datetime.datetime) and value.tzinfo is not None and rng.random() < 0.5:
+            # the same instant expressed in another zone
+            try:
+                other = (value.astimezone(datetime.timezone(datetime.timedelta(hours=rng.choice((-8, 1, 2, 5))))), )
+            except (OverflowError, ValueError):
+                pass
         if value is None:
             # an optional field that is unset gets a value of the type its validator declares
             declared = _declared_type(field.validator)
